@@ -53,6 +53,12 @@ def gen_case(rng):
                 pl["nested"] = {"b": 1, "a": [1, {"d": None}]}
             elif r_ < 0.14:
                 pl["__mixed__"] = rng.choice(["top-int", "nested-int", "none-key"])  # expanded by the stand-in (JSON cannot carry non-string keys)
+            elif r_ < 0.24:
+                # free-form lines: records that do not say which turn / agent they belong to, an empty record, a trace stream
+                for k_ in rng.choice([["turn"], ["agent"], ["turn", "agent"], ["turn", "agent", "k", "ms", "body"]]):
+                    pl.pop(k_, None)
+                if rng.random() < 0.5:
+                    name = "trace.jsonl"
             logs.append([name, pl])
         deltas = [["node", f"n:{a}:{rng.choice('abc')}", "weight", rng.choice([0.1, -0.2, 0.3]), 1] for _ in range(rng.randint(0, 4))]
         if rng.random() < 0.12:
